@@ -167,6 +167,24 @@ func GraphModel(t *rapid.T, o GraphOpts) *Model {
 		renameGraphModel(t, m)
 	} else if o.Names && rapid.IntRange(0, 7).Draw(t, "positionalName") == 0 {
 		positionalName(t, m)
+	} else if o.Names {
+		keep := map[string]bool{"p": true, "zz": true}
+		switch rapid.IntRange(0, 11).Draw(t, "specialNames") {
+		case 0, 1:
+			// two names that a derived key (hash, prefix, suffix, case, digits, ...) makes equal, see names.go
+			p := DrawNamePair(t)
+			if what := ApplyNamePair(t, m, p, keep); what != "" {
+				m.Named = p.Kind + ":" + what
+			}
+		case 2:
+			if GlueWithoutSeparator(t, m, keep) {
+				m.Named = "glue0"
+			}
+		case 3:
+			if mirrorTTU(m) {
+				m.Named = "mirror-ttu"
+			}
+		}
 	}
 	return m
 }
@@ -280,9 +298,9 @@ func deepChain(t *rapid.T, m *Model) {
 }
 
 var (
-	gAltTerm = []string{"User", "R", "u-1", "x.y", "USER", "E", "union", "exclusion"}
-	gAltObj  = []string{"Repo", "Role", "R", "Doc", "DOC", "d/1", "RR", "Rx-1", "union", "intersection", "exclusion"}
-	gAltRel  = []string{"A", "R", "Ra", "a-b", "a.b", "B", "r/1", "Rel"}
+	gAltTerm = []string{"User", "R", "u-1", "x.y", "USER", "E", "union", "exclusion", "t1", "t01", "team-", "a--b", "service-account"}
+	gAltObj  = []string{"Repo", "Role", "R", "Doc", "DOC", "d/1", "RR", "Rx-1", "union", "intersection", "exclusion", "group", "subgroup", "Release", "o1", "o01", "org-"}
+	gAltRel  = []string{"A", "R", "Ra", "a-b", "a.b", "B", "r/1", "Rel", "member", "members", "s1", "s01", "view-"}
 )
 
 // renameGraphModel renames some types and relations consistently everywhere they are used. Names that differ from
@@ -583,4 +601,28 @@ func interlock(t *rapid.T, m *Model, nTerm, nRel int) {
 	}
 	// the tupleset of this type must point back to the type itself for the tuple-to-userset hops to stay inside the web
 	td.Rels[0].Restr = append([]Restriction{{Type: td.Name}}, td.Rels[0].Restr...)
+}
+
+// mirrorTTU adds, to the first object type, two tupleset relations q1, q2 towards the type itself and a relation
+// "mir: q1 from q2 or q2 from q1 or [user]": two tuple-to-userset operands of one operator whose target relation and
+// tupleset relation are each other's (keys built symmetrically from the two labels coincide).
+func mirrorTTU(m *Model) bool {
+	for ti := range m.Types {
+		td := &m.Types[ti]
+		if len(td.Rels) == 0 {
+			continue
+		}
+		for _, r := range td.Rels {
+			if r.Name == "q1" || r.Name == "q2" || r.Name == "mir" {
+				return false
+			}
+		}
+		self := []Restriction{{Type: td.Name}}
+		td.Rels = append(td.Rels,
+			Relation{Name: "q1", Rw: &Rewrite{Kind: This}, Restr: append([]Restriction{{Type: m.Types[0].Name}}, self...)},
+			Relation{Name: "q2", Rw: &Rewrite{Kind: This}, Restr: append([]Restriction{{Type: m.Types[0].Name}}, self...)},
+			Relation{Name: "mir", Rw: &Rewrite{Kind: Union, Kids: []*Rewrite{{Kind: This}, {Kind: TTU, Rel: "q1", Tupleset: "q2"}, {Kind: TTU, Rel: "q2", Tupleset: "q1"}}}, Restr: []Restriction{{Type: m.Types[0].Name}}})
+		return true
+	}
+	return false
 }
